@@ -40,12 +40,16 @@ struct AList {
     embedded_pairing_wkdibe_attributelist_t list;
     embedded_pairing_wkdibe_attribute_t* heap;   // exact-size heap array
     bool is_null;
+    bool want_share;                             // token started with '=': make this list a view of the related list's array where it can be one
 };
+static int g_shared;                             // calls in this command that received two lists with shared storage
 
 // o<0|1>[,idx:hex64:omit]*   or   null
 static void parse_alist(const char* tok, AList& a) {
     a.heap = NULL;
     a.is_null = false;
+    a.want_share = tok[0] == '=';
+    if (a.want_share) tok++;
     memset(&a.list, 0, sizeof a.list);
     if (!strcmp(tok, "null")) { a.is_null = true; return; }
     if (tok[0] != 'o') die("bad attribute list", tok);
@@ -75,6 +79,17 @@ static void parse_alist(const char* tok, AList& a) {
     }
 }
 static void free_alist(AList& a) { free(a.heap); a.heap = NULL; }
+// A caller that keeps one attribute array and passes two views of it (the same list twice, a list and its first or last k entries):
+// when `b` asks for it and its entries are bytewise a prefix, a suffix or all of `a`'s (or the other way round), the shorter list
+// becomes a view into the longer one's array.  Both heaps stay owned by their AList and are freed as before.
+static void share_storage(AList& a, AList& b) {
+    if (!b.want_share || a.is_null || b.is_null || !a.list.length || !b.list.length) return;
+    AList& lo = a.list.length >= b.list.length ? a : b;
+    AList& sh = (&lo == &a) ? b : a;
+    size_t n = sh.list.length, m = lo.list.length;
+    if (memcmp(sh.heap, lo.heap, n * sizeof *sh.heap) == 0) { sh.list.attrs = lo.heap; g_shared++; }
+    else if (memcmp(sh.heap, lo.heap + (m - n), n * sizeof *sh.heap) == 0) { sh.list.attrs = lo.heap + (m - n); g_shared++; }
+}
 static const embedded_pairing_wkdibe_attributelist_t* LP(AList& a) { return a.is_null ? NULL : &a.list; }
 
 // Under ASan the arrays have exactly the size the Go binding allocates (an extra slot is a report).  Without ASan a
@@ -156,10 +171,19 @@ static void random_gt(Fq12& m) {
     m.random_gt(s, generator_pairing, rng_cb);
 }
 
+// seed token: decimal PRNG seed, or x<hex>: the random source first returns these bytes (then PRNG output seeded from the token)
+static void seed_from(const char* tok, bool script_now = true) {
+    if (tok[0] != 'x') { rng_seed(strtoull(tok, NULL, 10)); return; }
+    uint64_t h = 1469598103934665603ull;
+    for (const char* p = tok; *p; p++) h = (h ^ (uint8_t) *p) * 1099511628211ull;
+    rng_seed(h);
+    if (script_now) rng_script(tok + 1);
+}
+
 // ------------------------------------------------------------------ commands
 static void cmd_setup(void) {
     int pid = (int) argi(1), l = (int) argi(2), sig = (int) argi(3);
-    rng_seed(strtoull(arg(4), NULL, 10));
+    seed_from(arg(4));
     free(P[pid].p.h);
     memset(&P[pid], 0, sizeof P[pid]);
     P[pid].p.h = l > 0 ? (embedded_pairing_wkdibe_g1_t*) malloc(sizeof(embedded_pairing_wkdibe_g1_t) * (size_t) l) : NULL;
@@ -216,7 +240,7 @@ static void cmd_keyop(const char* op) {
     if (from_parent) parent = (int) argi(i++);
     int alloc = (int) argi(i++);
     AList al; parse_alist(arg(i++), al);
-    rng_seed(strtoull(arg(i++), NULL, 10));
+    seed_from(arg(i++));
     if (kid == parent) die("output key aliases parent", op);
     alloc_b(kid, alloc);
     if (!strcmp(op, "keygen")) embedded_pairing_wkdibe_keygen(&K[kid].k, &P[pid].p, &P[pid].msk, LP(al), rng_cb);
@@ -231,7 +255,7 @@ static void cmd_keyop(const char* op) {
 static void cmd_adjust(void) {
     // adjust kid parent from to   (Go: b is reallocated to parent.l slots)
     int kid = (int) argi(1), parent = (int) argi(2);
-    AList f, t; parse_alist(arg(3), f); parse_alist(arg(4), t);
+    AList f, t; parse_alist(arg(3), f); parse_alist(arg(4), t); share_storage(f, t);
     int length = K[parent].k.l;
     if (length != K[kid].k.l) {
         K[kid].k.b = (length + SLACK) > 0 ? (embedded_pairing_wkdibe_freeslot_t*) realloc(K[kid].k.b, sizeof(embedded_pairing_wkdibe_freeslot_t) * (size_t) (length + SLACK)) : (free(K[kid].k.b), (embedded_pairing_wkdibe_freeslot_t*) NULL);
@@ -246,7 +270,7 @@ static void cmd_resample(void) {
     // resample kid pid src further alist(for precompute: the key's fixed pattern) seed
     int kid = (int) argi(1), pid = (int) argi(2), src = (int) argi(3), further = (int) argi(4);
     AList al; parse_alist(arg(5), al);
-    rng_seed(strtoull(arg(6), NULL, 10));
+    seed_from(arg(6));
     embedded_pairing_wkdibe_precomputed_t pre;
     get_precomputed(&pre, pid, al);
     alloc_b(kid, further ? K[src].k.l : 0);
@@ -315,10 +339,11 @@ static void cmd_dec(void) {
     // mod: 0 none, 1 a*=gen, 2 b+=gen, 3 c+=gen, 4 a<->other message, 5 b negated, 6 c doubled ; 10+ = encrypt_precomputed path
     int kid = (int) argi(1), pid = (int) argi(2);
     AList al; parse_alist(arg(3), al);
-    rng_seed(strtoull(arg(4), NULL, 10));
+    seed_from(arg(4), false);
     int mod = (int) argi(5);
     Fq12 m, d;
     random_gt(m);
+    if (arg(4)[0] == 'x') rng_script(arg(4) + 1);           // the crafted stream is for the encryption, not for the driver's message draw
     embedded_pairing_wkdibe_ciphertext_t ct;
     if (mod >= 10) {
         embedded_pairing_wkdibe_precomputed_t pre;
@@ -351,7 +376,7 @@ static void cmd_sign(void) {
     int sid = (int) argi(1), kid = (int) argi(2), pid = (int) argi(3);
     AList al; parse_alist(arg(4), al);
     embedded_pairing_wkdibe_scalar_t msg; unhex(arg(5), &msg, 32);
-    rng_seed(strtoull(arg(6), NULL, 10));
+    seed_from(arg(6));
     int mode = (int) argi(7);
     if (mode == 0) {
         embedded_pairing_wkdibe_sign(&S[sid], &P[pid].p, &K[kid].k, LP(al), &msg, rng_cb);
@@ -421,7 +446,10 @@ static void cmd_precmp(void) {
     if (n == 1) putchar('-');
     for (int i = 1; i < n; i++) {
         AList next; parse_alist(arg(2 + i), next);
+        prev.list.attrs = prev.heap;             // a view taken for the previous step ends with it
+        share_storage(prev, next);
         embedded_pairing_wkdibe_adjust_precomputed(&cur, &P[pid].p, LP(prev), LP(next));
+        next.list.attrs = next.heap;
         embedded_pairing_wkdibe_precomputed_t direct;
         embedded_pairing_wkdibe_precompute(&direct, &P[pid].p, LP(next));
         putchar(G1::equal(*reinterpret_cast<G1*>(&cur.prodexp), *reinterpret_cast<G1*>(&direct.prodexp)) ? '1' : '0');
@@ -434,7 +462,7 @@ static void cmd_precmp(void) {
 static void cmd_adjcmp(void) {
     // adjcmp pid parent from to : ndqualify(parent, from) adjusted to 'to'  vs  ndqualify(parent, to), component for component
     int pid = (int) argi(1), parent = (int) argi(2);
-    AList f, t; parse_alist(arg(3), f); parse_alist(arg(4), t);
+    AList f, t; parse_alist(arg(3), f); parse_alist(arg(4), t); share_storage(f, t);
     int l = PP(pid).l;
     embedded_pairing_wkdibe_secretkey_t a, b;
     memset(&a, 0, sizeof a); memset(&b, 0, sizeof b);
@@ -486,6 +514,7 @@ int main(int argc, char** argv) {
         else if (!strcmp(op, "precmp")) cmd_precmp();
         else if (!strcmp(op, "adjcmp")) cmd_adjcmp();
         else die("unknown op", op);
+        if (g_shared) { printf(" shared=%d", g_shared); g_shared = 0; }
         putchar('\n');
         fflush(stdout);
     }
